@@ -41,7 +41,7 @@ fn plan_base(prop: &str, tier: &str, h: &dyn Fn(u32, u32) -> PartPlan) -> Vec<Pa
         }
         "C05" => vec![h(8000, 128000), if t { pp("trees", 16, 1_000_000 / 16) } else { pp("trees", 16, 40_000 / 16) }, pp("tree-exhaustive", 16, 0)],
         "C06" => vec![h(12000, 256000), pp("merge-exhaustive", 16, 0)],
-        "C07" => vec![h(12000, 256000)],
+        "C07" => vec![h(12000, 256000), if t { pp("dual", 16, 64000 / 16) } else { pp("dual", 16, 4000 / 16) }],
         "C08" => {
             // all sizes of the internal worker pool that matter: 1 (client thread + one worker), 2, 16 (quick);
             // thorough: 1..16 spread over the shards
@@ -124,8 +124,9 @@ pub fn rule(prop: &str, tier: &str) -> String {
         "C02" => v.push("[deliver] a generated multi-replica history builds a block graph; all its item files are delivered one at a time in a generated permutation (optionally packs last, optionally permuted listing) to a fresh replica with refresh after each file (= every prefix of the permutation); graphs with <=4 (quick) / <=5 (thorough) items: every permutation; after each delivery: incremental == full reload, applied set == reference causal closure, state == replica holding only the closure, heads == closure heads; non-trivial = >=4 items with a child block delivered before a parent and a block before its pack".into()),
         "C09" => v.push("[faults] generated multi-replica history; for EVERY commit and meld in it: the storage snapshot at every write boundary is opened by a fresh replica (must equal the state of the intact causally complete items only; a block present must be complete, i.e. never before its pack; before the block is written the state equals the previous state), then the history prefix is re-executed with write k of that operation failing, for every k (single and repeated failure; <=16/48 re-runs per history): failed commit reports an error, keeps the staged changes and the visible state, the retry succeeds and reopening equals the fault-free twin; meld under failures followed by a fault-free meld equals the twin; non-trivial = history with a commit writing pack+block, an injected commit failure and a meld of >=3 items or an injected meld failure".into()),
         "C10" => v.push("[damage] generated multi-replica history, fully exchanged; then 1-4 generated faults (bit flip at a generated position, truncation to a generated length, emptying, deletion, injection of 16 kinds of junk files incl. over-long indices, extension-only names and hash-valid but malformed blocks), each alone and all together, plus a sweep over the positions of one item (bit flip + truncation at every stride-th byte; every byte for items <=700 B in thorough); a fresh replica opened on the damaged storage must report an error or equal (state and applied blocks) a replica on the reference closure of the intact items, never abort, and show only submitted contents; the same through refresh on a live replica that had loaded a generated prefix. non-trivial = a fault that invalidates an item on which other blocks depend. [damage-b] capacity-1 caches: packs damaged after indexing; get_value of every revision returns an error or the intact value, read() may fail but shows only submitted contents".into()),
-        "C17" => v.push("[kv] generated sequences (1-30) of write / full read / in-range non-empty slice read / list(suffix) / reopen over 12 stacks {memory, directory, SQLite file, SQLite in-memory} x {plain, Deflate, Brotli}, each against a write-once map; keys ASCII >=3 chars from stems x extensions incl. .delta .pack .flate .brotli and nested ones; values empty, 1 byte, random and compressible up to 128 KB; 14 list suffixes incl. empty, partial and over-long; final reopen + full comparison; non-trivial = a second write to an existing key, a slice read and a list in one sequence. [replica] the same generated two-replica history (rich JSON, commits, meld+refresh, resolve, reopen) on every stack; per-step observations equal to those over plain memory; replicas reopened from their storage equal the live ones; non-trivial = history with a commit and a reopen on a persistent stack".into()),
+        "C17" => v.push("[kv] generated sequences (1-30) of write / full read / in-range non-empty slice read / list(suffix) / reopen over 12 stacks {memory, directory, SQLite file, SQLite in-memory} x {plain, Deflate, Brotli}, each against a write-once map; keys ASCII >=3 chars from stems x extensions incl. .delta .pack .flate .brotli, nested ones, upper/lower-case twins and the characters _ and %; values empty, 1 byte, random and compressible up to 128 KB; 20 list suffixes incl. empty, partial, over-long, upper-case and ones containing _ or %; final reopen + full comparison; non-trivial = a second write to an existing key, a slice read and a list in one sequence. [replica] the same generated two-replica history (rich JSON, commits, meld+refresh, resolve, reopen) on every stack; per-step observations equal to those over plain memory; replicas reopened from their storage equal the live ones; non-trivial = history with a commit and a reopen on a persistent stack".into()),
         "C18" => v.push("[configs] one generated multi-replica history (no raw partial file copies / time travel, whose selectors address block identifiers that legitimately vary per run) is executed in 8 (quick) / 26 (thorough) child processes with RAYON_NUM_THREADS in {1,2,4,16} / 1..16, MELDA_*_CACHE_CAP in {1,2,16}(+3), permuted storage listings, and twice in the same configuration (fresh hash seeds); the per-step digests of (objects, winners, conflicts, document) of every replica and the converged final state must be identical in all runs; non-trivial = history with an update touching >=8 objects or a refresh applying >=3 blocks at once".into()),
+        "C07" => v.push("[dual] two replicas brought to a common conflicted state (history + complete exchange) resolve the same object independently, in favour of the same (30 %) or of generated, possibly different, live leaves; both commit; the complete exchange must converge (C01 oracle) and, when both chose the same leaf, the object must not be in conflict afterwards; non-trivial = a dual resolution took place".into()),
         "C05" => v.push("[trees] generated (revision,parent) sets: several creations, update/delete/marker children, dangling parents, chains past index 10/100, inserted in 2-6 generated permutations via add and unvalidated_add+validate; RevisionTree leaves/winner vs reference rule; non-trivial = >=2 live leaves and (marker | dangling parent | index>=10). [tree-exhaustive] every shape with <=4 (quick) / <=5 (thorough) nodes x every insertion order".into()),
         "C06" => v.push("[merge-exhaustive] merge_arrays on every ordered pair of duplicate-free sequences (6 symbols/len<=6 quick; 7 symbols/len<=6 thorough) and every triple folded on a base (5/4; 6/4): union exactly once, base order kept, other order kept when the versions agree on common elements; non-trivial = both sides contribute an element or disagree on order".into()),
         "C16" => v.push("[chains-capN] one replica, chains of 2-40 (60) successive versions of two flattened arrays (insert, remove, rotate, reverse, empty, refill, move across arrays, key removal/re-addition, identical successive edits) with commits, reopens and snapshots interleaved, run in worker processes with MELDA_ARRAYDESCRIPTORS_CACHE_CAP = MELDA_DATA_CACHE_CAP in {1,2,3,16}; read()==submitted after every step and every stored version on the parent chain rebuilt by the reference applier == what was submitted for that revision; non-trivial = chain >=5 with an emptying and refill. [diff-exhaustive] every ordered pair of sequences with repeats over 4 symbols (len<=6 quick, <=7 thorough): apply(make(a,b),a)==b with melda's applier and, after a JSON text round trip, with the reference applier; script empty iff a==b; non-trivial = script with >=2 operations".into()),
@@ -158,6 +159,7 @@ pub fn run_part(prop: &str, part: &str, tier: &str, cases: u32, seed: u64, _shar
         "tree-exhaustive" => crate::unit::tree_exhaustive(tier == "thorough", _shard, _nshards),
         "merge-exhaustive" => crate::unit::merge_exhaustive(tier == "thorough", _shard, _nshards),
         "diff-exhaustive" => crate::unit::diff_exhaustive(tier == "thorough", _shard, _nshards),
+        "dual" => runner::drive("dual", prop, crate::c07::strategy(), cases, seed, crate::c07::run),
         "twins" => runner::drive("twins", prop, crate::c19::strategy(), cases, seed, crate::c19::run),
         "configs" => {
             let th = tier == "thorough";
@@ -213,6 +215,10 @@ pub fn replay_part(prop: &str, part: &str, case: &Value) -> Option<(String, Stri
         "revs" => {
             let case: crate::unit::RevCase = serde_json::from_value(case.clone()).ok()?;
             runner::replay(prop, &case, 1, crate::unit::run_rev)
+        }
+        "dual" => {
+            let case: crate::c07::DualCase = serde_json::from_value(case.clone()).ok()?;
+            runner::replay(prop, &case, 5, crate::c07::run)
         }
         "twins" => {
             let case: crate::c19::TwinCase = serde_json::from_value(case.clone()).ok()?;
